@@ -21,7 +21,7 @@ ASSUMPTIONS = ['visibility model: all four sensors within +-60 deg horizontal / 
 REQUIRED = ['mon.rooms_solved', 'mon.bs_poses_compared', 'mon.cf_poses_compared', 'mon.matcher_groups_checked',
             'mon.unlinkable_rooms', 'mon.partial_visibility_rooms', 'mon.tight_time_layouts', 'mon.matcher_streams',
             'mon.matcher_streams_with_pause_shorter_than_window', 'mon.rooms_with_windows_of_three_base_stations', 'mon.axis_aligned_rooms',
-            'mon.pose_averages_of_near_identical_estimates_checked']
+            'mon.pose_averages_of_near_identical_estimates_checked', 'mon.chain_visibility_rooms']
 DESC_TIMEOUT = 1800
 
 
@@ -65,6 +65,9 @@ def run_room(ctx, rseed, mode):
     elif mode == 'axis':
         rm = lhgen.axis_room(rseed)
         vis = lhgen.visibility(rm, partial_seed=rseed + 1, drop=0.0)
+    elif mode == 'chain':
+        rm = lhgen.chain_room(rseed)
+        vis = rm['vis']
     else:
         rm = lhgen.room(rseed)
         drop = 0.0 if mode == 'full' else rnd.choice((0.2, 0.4))
@@ -141,7 +144,7 @@ def run_room(ctx, rseed, mode):
             # discarded as an outlier, nothing is left to take the reference from
             mech = 'lh:sparse-room:mirror-solution-or-unconverged'
         if mech.startswith('lh:sparse-room'):
-            ctx.count('mon.axis_rooms_hit_by_the_known_finding' if mode == 'axis' else 'mon.other_rooms_hit_by_the_known_finding')
+            ctx.count({'axis': 'mon.axis_rooms_hit_by_the_known_finding', 'chain': 'mon.chain_rooms_hit_by_the_known_finding'}.get(mode, 'mon.other_rooms_hit_by_the_known_finding'))
         ctx.violate(mech, {'room_seed': rseed, 'error': str(e), 'n_bs': len(rm['ids']), 'n_samples': len(used)}, replay=rp)
         return 'done'
     except Exception as e:  # noqa
@@ -184,7 +187,7 @@ def run_room(ctx, rseed, mode):
         # samples (<= 5), it discarded error-free samples as outliers, or the solver reports success=False
         bad = ('lh:sparse-room:mirror-solution-or-unconverged', dict(bad[1], matched_samples=len(matched),
                                                                      samples_kept_by_estimator=len(cleaned)))
-        ctx.count('mon.axis_rooms_hit_by_the_known_finding' if mode == 'axis' else 'mon.other_rooms_hit_by_the_known_finding')
+        ctx.count({'axis': 'mon.axis_rooms_hit_by_the_known_finding', 'chain': 'mon.chain_rooms_hit_by_the_known_finding'}.get(mode, 'mon.other_rooms_hit_by_the_known_finding'))
     if bad is not None:
         bad[1].update({'room_seed': rseed, 'mode': mode, 'n_bs': len(rm['ids']), 'n_samples': len(ks),
                        'visibility': [seen for _, seen in used][:12]})
@@ -197,6 +200,8 @@ def run_room(ctx, rseed, mode):
         ctx.count('mon.rooms_with_windows_of_three_base_stations')
     if mode == 'axis':
         ctx.count('mon.axis_aligned_rooms')
+    if mode == 'chain':
+        ctx.count('mon.chain_visibility_rooms')
     ctx.count('worst_translation_nm', 0)
     ctx.nontrivial((mode, rseed))
     return (worst_t, worst_r, len(rm['ids']), len(ks))
@@ -309,6 +314,12 @@ def post_check(counters, tier):
     if bad + good >= 40 and bad > 0.38 * (bad + good):
         return [('lh:axis-aligned-rooms:initial-estimate-failures-far-above-the-known-rate',
                  {'axis_rooms': bad + good, 'failed': bad, 'known_rate': 0.14})]
+    # chain rooms (every pair of base stations seen once or twice): CHAIN_RATE measured on the repaired tree
+    badc = counters.get('mon.chain_rooms_hit_by_the_known_finding', 0)
+    goodc = counters.get('mon.chain_visibility_rooms', 0)
+    if badc + goodc >= 20 and badc > 0.25 * (badc + goodc):
+        return [('lh:chain-visibility-rooms:initial-estimate-failures-far-above-the-known-rate',
+                 {'chain_rooms': badc + goodc, 'failed': badc})]
     return []
 
 
@@ -329,7 +340,7 @@ def run(desc, ctx):
     known_before = ctx.counters.get('mon.other_rooms_hit_by_the_known_finding', 0)
     for j in range(desc['rooms']):
         rseed = desc['seed'] * 1000 + j
-        mode = ('full', 'partial', 'windows', 'axis', 'unlinkable', 'full', 'windows', 'partial', 'axis', 'axis')[j % 10]
+        mode = ('full', 'partial', 'windows', 'axis', 'unlinkable', 'chain', 'full', 'windows', 'partial', 'axis', 'axis', 'chain')[j % 12]
         r = run_room(ctx, rseed, mode)
         tries = 0
         while r == 'skip' and tries < 30:
